@@ -562,7 +562,7 @@ class DestHandler:
             if (
                 self._params.acked_params.lost_seg_tracker.num_lost_segments > 0
                 or self._params.acked_params.metadata_missing
-            ):
+            ) and self._params.completion_disposition != CompletionDisposition.CANCELED:
                 self._start_deferred_lost_segment_handling()
             else:
                 if self._params.completion_disposition != CompletionDisposition.CANCELED:
